@@ -7,6 +7,20 @@ func init() {
 	verifHarnesses["VerifC11SaveLoad"] = VerifC11SaveLoad
 }
 
+// assumeNoTie restricts the history to headers with pairwise different cumulative work: which of
+// two equally heavy tips is reported is not fixed by the properties (it depends on branch order,
+// which Clean and Load legitimately change), so twin comparisons are made on tie-free histories.
+func (h *vHist) assumeNoTie(i int) {
+	if !h.linked[i] {
+		return
+	}
+	for j := range h.hdr {
+		if j != i && h.linked[j] {
+			verifAssume(h.cum[i].Cmp(h.cum[j]) != 0)
+		}
+	}
+}
+
 // twin builds a second repository that receives the same submissions.
 type vTwin struct {
 	repo  *Repository
@@ -67,7 +81,7 @@ func VerifC10Clean() {
 		switch op {
 		case 0:
 			hd, p := h.newHeader()
-			h.record(hd, p)
+			h.assumeNoTie(h.record(hd, p))
 			e1 := h.repo.ProcessHeader(h.ctx, hd)
 			e2 := t.repo.ProcessHeader(h.ctx, hd)
 			verifAssert(errClass(e1) == errClass(e2), "verdict-differs-after-clean")
@@ -84,6 +98,7 @@ func VerifC10Clean() {
 		verifAssert(h.observeBest(h.repo, prune) == h.observeBest(t.repo, prune), "cleaned-and-uncleaned-repositories-diverge")
 		verifObserve("step", s, op, h.repo.Height(), t.repo.Height())
 		verifObserve("state", h.observeBest(h.repo, prune))
+		verifObserve("twin", h.observeBest(t.repo, prune))
 	}
 	verifReach("done")
 }
@@ -101,7 +116,7 @@ func VerifC11SaveLoad() {
 		switch op {
 		case 0:
 			hd, p := h.newHeader()
-			h.record(hd, p)
+			h.assumeNoTie(h.record(hd, p))
 			e1 := h.repo.ProcessHeader(h.ctx, hd)
 			e2 := t.repo.ProcessHeader(h.ctx, hd)
 			verifAssert(errClass(e1) == errClass(e2), "verdict-differs-after-load")
